@@ -1,21 +1,27 @@
 """C23 - mitmproxy never proxies a connection back to its own listening sockets.
 
+Every statement about the addon's decision rests on *interpreting* the method ``ServerConnectHook`` dispatches to on
+``Proxyserver`` (``mitmlint/pyint.py``: helper functions / methods, ``any()`` over generators, early ``continue`` / ``return``,
+walrus, try/except/else ... are followed by the interpreter; ``ipaddress`` and the str methods are the checker's own Python =
+trusted base).  No rule looks at the shape of the code, at names of locals or at names of helper functions; the helper that
+classifies the host is identified (for the evidence only) by its role: the function from which ``ipaddress`` is called.
+
 Decided:
-  R23.1 the self-connect predicate of ``Proxyserver.server_connect`` (the condition guarding ``data.server.error = ...``),
-        evaluated by interpreting its AST (helper functions of the module inlined, string methods and the ``ipaddress``
-        module evaluated by the checker's own Python = trusted base) over
-        {representative destination spellings: localhost in any case / with trailing dot, 127.0.0.0/8, ::1, IPv4-mapped
-         loopback, 0.0.0.0, ::, the listen host itself, unrelated names and addresses}
-        x {listen hosts} x {port equal?} x {transport equal?}:
-        hit  <=>  port equal and transport equal and (destination is a loopback name/address, an unspecified address
-        or equals the listen host).  A predicate decided by membership of the raw string in a finite tuple of literals
+  R23.1 one listener (transport, listen host, listen port) x one connection (destination spelling, port, transport):
+        {localhost in any case / with trailing dot, 127.0.0.0/8, ::1, IPv4-mapped loopback, 0.0.0.0, ::, the listen host itself,
+         unrelated names and addresses} x {listen hosts} x {port equal?} x {tcp, udp, both} x {tcp, udp}:
+        refused  <=>  port equal and (listener transport == connection transport or listener transport == "both") and
+        (destination equals the listen host, is an unspecified address, or is a loopback name/address while the listener is bound
+        to a loopback or unspecified address).  Loopback spellings while listening on one specific non-loopback interface are
+        not decided (the property allows either).  A decision by membership of the raw string in a finite tuple of literals
         (F-C23, repaired) differs on 127.0.0.2, LOCALHOST, "localhost.", ::ffff:127.0.0.1, 0.0.0.0 and is reported.
         No cell may raise (an escaping ValueError would disable the guard for that destination).
-  R23.2 on a hit ``data.server.error`` is set to a non-empty message on every path and the loops over all servers / listen
-        addresses are only left early through that hit; ``ConnectionHandler.open_connection`` awaits ServerConnectHook,
-        then tests the error and answers ServerConnectErrorHook + OpenConnectionCompleted(err) + return before any
-        socket is opened; the hook data's ``server`` is the connection being opened; ``Proxyserver`` is a default addon
-        and implements the method ServerConnectHook dispatches to.
+  R23.2 a destination equal to the k-th listen address of the i-th listener ends with ``data.server.error`` = a non-empty str,
+        for every position (i, k) (all listeners and all their addresses are examined, a hit is never undone);
+        ``ConnectionHandler.open_connection`` awaits ServerConnectHook, then tests the error and answers ServerConnectErrorHook +
+        OpenConnectionCompleted(err) + return before any socket is opened; the hook data's ``server`` is the connection being
+        opened; ``Proxyserver`` is a default addon and implements the method ServerConnectHook dispatches to.
+  R23.3 the same decision over representative multi-listener configurations (mixed transports, several listen addresses).
 NOT decided: destinations that reach a listener through DNS or through one of the machine's own non-loopback addresses
 while listening on all interfaces; textual variants of an explicit listen host (the property does not demand them).
 """
@@ -27,31 +33,27 @@ import ipaddress
 
 from ..core import AnalysisError
 from ..core import norm
-from ..model import attr_chain
 from ..model import last_attr
 from ..model import walk_in_order
-from ..paths import C
-from ..paths import Engine
 from ..paths import GenericSpec
-from ..paths import is_const
-from ..paths import State
 from ..paths import traces_of
-from ..paths import UNKNOWN
+from ..pyint import Func
+from ..pyint import Interp
+from ..pyint import Raised
+from ..pyint import Rec
 from ..selftest import Mutant
 from ._helpers_C import default_addon_order
-from ._helpers_C import hook_method
-from ._helpers_C import is_obj
-from ._helpers_C import OBJ
-from ._helpers_C import StrictSpec
+from ._helpers_C import hook_method_sem
 
 PROP = "C23"
 REG = {
     "strength": "partial",
-    "technique": "decision-table extraction: the self-connect predicate's AST (helpers inlined) is interpreted over representative "
-    "destination spellings x listen hosts x port/transport agreement + CFG path enumeration of server_connect / open_connection",
-    "claim": "the predicate guarding data.server.error holds exactly when port and transport agree and the destination is a loopback "
-    "name/address, an unspecified address or the listen host, for every representative spelling class the property names; a hit "
-    "sets the error on all paths and open_connection refuses before opening a socket.",
+    "technique": "decision-table extraction by AST interpretation: the addon method ServerConnectHook dispatches to is interpreted "
+    "(helpers followed, ipaddress trusted) over destination spellings x listener configurations x port/transport agreement and "
+    "compared with a reference computed by the checker + CFG path enumeration of open_connection",
+    "claim": "the hook refuses (sets a non-empty data.server.error) exactly when port and transport agree and the destination is the "
+    "listen host, an unspecified address, or a loopback name/address while listening on loopback / all interfaces, for every "
+    "representative spelling class the property names and every listener position; open_connection refuses before opening a socket.",
     "note": "str methods and the ipaddress module are evaluated by the checker's Python (trusted); spelling classes are sampled by "
     "representatives, not enumerated; own non-loopback addresses / DNS names are out of scope.",
 }
@@ -59,267 +61,286 @@ REG = {
 PS = "mitmproxy/addons/proxyserver.py"
 SERVER = "mitmproxy/proxy/server.py"
 HOOKF = "mitmproxy/proxy/server_hooks.py"
+ADDON = "Proxyserver"
 
-LOCAL_DESTS = [
+LOOPBACK_DESTS = [
     "localhost", "LOCALHOST", "LocalHost", "localhost.", "LOCALHOST.",
     "127.0.0.1", "127.0.0.2", "127.255.255.254", "::1", "0:0:0:0:0:0:0:1",
-    "::ffff:127.0.0.1", "::ffff:127.8.9.10", "0.0.0.0", "::",
+    "::ffff:127.0.0.1", "::ffff:127.8.9.10",
 ]
+WILDCARD_DESTS = ["0.0.0.0", "::"]
+LOCAL_DESTS = LOOPBACK_DESTS + WILDCARD_DESTS
 REMOTE_DESTS = [
     "example.com", "localhost.example.com", "notlocalhost", "198.51.100.7", "128.0.0.1", "126.255.255.255", "1.0.0.127",
     "2001:db8::1", "::2", "::ffff:198.51.100.7",
 ]
 LISTEN_HOSTS = ["127.0.0.1", "0.0.0.0", "::", "::1", "192.0.2.1", "2001:db8::5"]
+MESSAGE_OK = "data.server.error = <non-empty message>"
+LOOPS_OK = "loops over servers x listen addresses are left early only after a hit"
 
-STR_METHODS = {"lower", "upper", "casefold", "strip", "rstrip", "lstrip", "removesuffix", "removeprefix", "startswith", "endswith"}
-IP_ATTRS = {"is_loopback", "is_unspecified", "is_private", "is_global", "is_link_local", "version"}
+
+# ------------------------------------------------------------------------------------------------ the interpreted world
+class _Log:
+    """Stand-in for ``logging`` / a logger: every method accepts anything and does nothing."""
+
+    def __getattr__(self, name):
+        def sink(*a, **k):
+            return _LOG
+
+        sink._log_stub = True
+        return sink
 
 
-class HostSpec(StrictSpec):
-    """Concrete interpretation of a small string/ipaddress predicate. A path on which a modelled operation raised is
-    marked ``$dead`` (the exception edge is explored separately through ``raises_into``)."""
+_LOG = _Log()
 
-    allowed_stmts = StrictSpec.allowed_stmts + (ast.Try,)
-    max_depth = 4
 
-    def __init__(self, module, atoms: dict):
-        super().__init__()
-        self.module = module
-        self.atoms = atoms  # attribute-chain text -> abstract value
+class _MemoModel:
+    """Read-only view of the parsed program that remembers class linearisations and method lookups (the tree does not change during
+    a run; the interpreter asks for the same ones in every table cell)."""
 
-    def ip_of(self, v):
-        if is_const(v) and isinstance(v[1], str):
-            try:
-                return ipaddress.ip_address(v[1])
-            except ValueError:
-                return None
-        return None
+    def __init__(self, model):
+        self._model = model
+        self._mro: dict = {}
+        self._method: dict = {}
 
-    def atom(self, expr, st, depth):
-        ch = attr_chain(expr)
-        if ch and ch in self.atoms:
-            return self.atoms[ch]
-        if isinstance(expr, ast.Attribute):
-            base = self.value(expr.value, st, depth)
-            if is_obj(base, "ip"):
-                ip = ipaddress.ip_address(base[2])
-                if expr.attr == "ipv4_mapped":
-                    if ip.version == 4:
-                        self.problems.append(".ipv4_mapped read from an IPv4Address (AttributeError)")
-                        return C(None)
-                    mp = ip.ipv4_mapped
-                    return OBJ("ip", str(mp)) if mp is not None else C(None)
-                if expr.attr in IP_ATTRS:
-                    return C(getattr(ip, expr.attr))
-                raise AnalysisError(f"self-connect predicate: unmodelled address attribute {norm(expr)}")
-            return None
-        if isinstance(expr, ast.Call):
-            f = expr.func
-            if isinstance(f, ast.Attribute) and f.attr in STR_METHODS:
-                base = self.value(f.value, st, depth)
-                if is_const(base) and isinstance(base[1], str):
-                    args = [self.value(a, st, depth) for a in expr.args]
-                    if expr.keywords or not all(is_const(a) and isinstance(a[1], (str, tuple)) for a in args):
-                        raise AnalysisError(f"self-connect predicate: unmodelled string call {norm(expr)}")
-                    return C(getattr(base[1], f.attr)(*[a[1] for a in args]))
-            if last_attr(f) == "ip_address" and len(expr.args) == 1 and not expr.keywords:
-                a = self.value(expr.args[0], st, depth)
-                if not (is_const(a) and isinstance(a[1], str)):
-                    raise AnalysisError(f"self-connect predicate: ip_address() of an unmodelled value {norm(expr)}")
-                ip = self.ip_of(a)
-                return OBJ("ip", str(ip)) if ip is not None else OBJ("raised", "ValueError")
-            if isinstance(f, ast.Name) and f.id == "str" and len(expr.args) == 1:
-                a = self.value(expr.args[0], st, depth)
-                if is_obj(a, "ip"):
-                    return C(a[2])
-                if is_const(a) and isinstance(a[1], str):
-                    return a
-            if isinstance(f, ast.Name) and isinstance(self.module.get(f.id), ast.FunctionDef):
-                return self.call_helper(self.module.get(f.id), expr, st, depth)
-        if isinstance(expr, ast.Tuple):
-            vals = [self.value(e, st, depth) for e in expr.elts]
-            if all(is_const(v) for v in vals):
-                return C(tuple(v[1] for v in vals))
-        return None
+    def __getattr__(self, name):
+        return getattr(self._model, name)
 
-    def call_helper(self, fn, call, st, depth):
-        if depth + 1 > self.max_depth:
-            raise AnalysisError(f"self-connect predicate: helper nesting too deep at {norm(call)}")
-        params = [a.arg for a in fn.args.args]
-        if call.keywords or len(call.args) != len(params) or fn.args.defaults:
-            raise AnalysisError(f"self-connect predicate: unmodelled helper call {norm(call)}")
-        self.vet(fn)
-        sub = HostSpec(self.module, self.atoms)
-        init = State()
-        for p, a in zip(params, call.args):
-            init = init.set(f"0:{p}", self.value(a, st, depth))
-        o = Engine(sub).run(fn, init)
-        self.problems.extend(sub.problems)
-        live_ret = [s for s in o.ret if s.get("$dead") != C(True)]
-        live_exc = [s for s in o.exc if s.get("$dead") != C(True)]
-        if live_exc:
-            e = live_exc[0].get("$exc")
-            self.problems.append(f"{fn.name}() raises {e[1] if is_const(e) else '?'} for this destination")
-            return OBJ("raised", "exc")
-        if not live_ret and sub.problems:
-            return OBJ("raised", "exc")
-        if len(live_ret) != 1:
-            raise AnalysisError(f"self-connect predicate: helper {fn.name} has {len(live_ret)} outcomes for one input")
-        return live_ret[0].get("$ret")
+    def mro(self, rel, qual):
+        k = (rel, qual)
+        if k not in self._mro:
+            self._mro[k] = self._model.mro(rel, qual)
+        return list(self._mro[k])
 
-    # a modelled operation that raised: the normal continuation is dead, the exception edge is taken instead
-    def raises_into(self, stmt, handler_names, st):
-        out = []
-        for n in ast.walk(stmt):
-            if isinstance(n, ast.Call) and last_attr(n.func) == "ip_address":
-                v = self.value(n, st, self._depth_of(st))
-                if is_obj(v, "raised"):
-                    out.append("ValueError")
-        return out
+    def method(self, rel, cls, name):
+        k = (rel, cls, name)
+        if k not in self._method:
+            self._method[k] = self._model.method(rel, cls, name)
+        return self._method[k]
 
-    def _depth_of(self, st):
-        return 0
 
-    def effect(self, stmt, st, depth):
-        st2 = StrictSpec.effect(self, stmt, st, depth)
-        if isinstance(stmt, (ast.Assign, ast.AnnAssign)) and stmt.value is not None and is_obj(self.value(stmt.value, st, depth), "raised"):
-            if self.in_try(stmt):
-                return st2.set("$dead", C(True))
-            self.problems.append(f"{norm(stmt.value)} raises ValueError and nothing catches it")
-            return st2.set("$dead", C(True))
-        return st2
+class Probe(Interp):
+    """pyint with (a) a record of the repository functions it went through and of those that consult ``ipaddress`` (role of the
+    host classifier, whatever its name) and (b) logging calls that tolerate abstract arguments."""
+
+    def __init__(self, model):
+        super().__init__(model, trusted_modules={"ipaddress": ipaddress, "logging": _LOG})
+        self.stack: list = []
+        self.reached: set = set()
+        self.classifiers: set = set()
+
+    def call_func(self, f, args, kwargs, depth):
+        key = (f.mod.rel, getattr(f.node, "_qual", None) or getattr(f.node, "name", "<lambda>"))
+        self.reached.add(key)
+        self.stack.append(key)
+        try:
+            return super().call_func(f, args, kwargs, depth)
+        finally:
+            self.stack.pop()
+
+    def native_call(self, f, args, kwargs, where):
+        if getattr(f, "_log_stub", False):
+            return _LOG
+        if getattr(f, "__module__", None) == "ipaddress" and self.stack:
+            self.classifiers.add(self.stack[-1])
+        return super().native_call(f, args, kwargs, where)
+
+
+class World:
+    """One Proxyserver addon with the given listeners; ``connect`` interprets the ServerConnectHook method for one upstream
+    connection and reports what became of ``data.server.error``."""
+
+    def __init__(self, ctx):
+        self.ctx = ctx
+        self.meth = hook_method_sem(ctx, HOOKF, "ServerConnectHook")
+        r = ctx.model.method(PS, ADDON, self.meth)
+        ctx.require(r is not None, f"{ADDON} (and its bases) no longer implement {self.meth}(), the method ServerConnectHook dispatches to")
+        self.mod, self.fn = r
+        self.qual = getattr(self.fn, "_qual", f"{ADDON}.{self.meth}")
+        ctx.functions.add(f"{self.mod.rel}::{self.qual}")
+        self.where = (self.mod.rel, self.qual, self.fn)
+        self.reached: set = set()
+        self.classifiers: set = set()
+        self.cells = 0
+        self.model = _MemoModel(ctx.model)
 
     @staticmethod
-    def in_try(node):
-        n = getattr(node, "_parent", None)
-        child = node
-        while n is not None and not isinstance(n, (ast.FunctionDef, ast.AsyncFunctionDef)):
-            if isinstance(n, ast.Try) and child in n.body:
+    def sockname(host, port):
+        return (host, port, 0, 0) if ":" in host else (host, port)
+
+    def connect(self, listeners, host, port, tp):
+        """listeners: [(mode transport, [(listen host, listen port), ...]), ...] -> (outcome, error value, values written to .error)
+        with outcome 'ok' | 'raises <Exc>'."""
+        it = Probe(self.model)  # module-level `logger = logging.getLogger(...)` evaluates to the stand-in by itself
+        me = Rec(ADDON, _impl=(PS, ADDON), _name="self", _connect_addr=None, is_running=True, connections={}, servers=[])
+        for i, (mtp, addrs) in enumerate(listeners):
+            lh, lp = addrs[0]
+            mode = Rec("ProxyMode", _name=f"servers[{i}].mode", transport_protocol=mtp, full_spec=f"mode{i}@{lh}:{lp}", type_name=f"mode{i}",
+                       description=f"listener {i}", data="", custom_listen_host=lh, custom_listen_port=lp)
+            me.servers.append(Rec("ServerInstance", _name=f"servers[{i}]", mode=mode, manager=me, is_running=True, last_exception=None,
+                                  listen_addrs=tuple(self.sockname(h, p) for h, p in addrs)))
+        srv = Rec("Server", _bases=("Connection",), _name="data.server",
+                  address=(host, port), peername=None, sockname=None, transport_protocol=tp, error=None, via=None, sni=None, tls=False,
+                  alpn=None, alpn_offers=(), certificate_list=(), cipher=None, cipher_list=(), tls_version=None, id="srv-1",
+                  timestamp_start=None, timestamp_end=None, timestamp_tcp_setup=None, timestamp_tls_setup=None)
+        cli = Rec("Client", _bases=("Connection",), _name="data.client", peername=("192.0.2.7", 50000), sockname=("127.0.0.1", 8080),
+                  transport_protocol=tp, error=None, tls=False, sni=None, alpn=None, id="cli-1", proxy_mode=me.servers[0].mode if me.servers else None)
+        data = Rec("ServerConnectionHookData", _name="data", server=srv, client=cli)
+        try:
+            it.apply(Func(self.mod, self.fn, bound=me), [data], {}, 0)  # = it.method(me, self.meth, data), the MRO lookup done once
+            how = "ok"
+        except Raised as r:
+            how = f"raises {r.name}"
+        self.cells += 1
+        self.reached |= it.reached
+        self.classifiers |= it.classifiers
+        written = [v for (name, kind, key, v) in it.writes if name == "data.server" and kind == "attr" and key == "error"]
+        return how, srv.error, written
+
+    def refused(self, listeners, host, port, tp):
+        how, err, _ = self.connect(listeners, host, port, tp)
+        return bool(err) if how == "ok" else how
+
+    def report(self):
+        ctx = self.ctx
+        for rel, q in sorted(self.reached):
+            ctx.functions.add(f"{rel}::{q}")
+        ctx.sample({"interpreted": sorted(f"{rel}::{q}" for rel, q in self.reached),
+                    "host classifier (by role: calls into ipaddress)": sorted(f"{rel}::{q}" for rel, q in self.classifiers)})
+
+
+def loopbackish(listen_host: str) -> bool:
+    ip = ipaddress.ip_address(listen_host)
+    return ip.is_loopback or ip.is_unspecified
+
+
+def must_refuse(listeners, host, port, tp):
+    """True = must refuse, False = must not refuse, None = not decided by the property (reference, computed by the checker)."""
+    verdict = False
+    for mtp, addrs in listeners:
+        if mtp not in (tp, "both"):
+            continue
+        for lh, lp in addrs:
+            if lp != port:
+                continue
+            if host == lh or host in WILDCARD_DESTS:
                 return True
-            child, n = n, getattr(n, "_parent", None)
-        return False
-
-    def decide(self, cond, st, depth):
-        if st.get("$dead") == C(True):
-            return False
-        return StrictSpec.decide(self, cond, st, depth)
-
-    def decide_isinstance(self, cond, st, depth):
-        v = self.value(cond.args[0], st, depth)
-        if is_obj(v, "ip"):
-            t = cond.args[1]
-            names = [last_attr(e) for e in (t.elts if isinstance(t, ast.Tuple) else [t])]
-            ver = ipaddress.ip_address(v[2]).version
-            known = {"IPv4Address": ver == 4, "IPv6Address": ver == 6}
-            if any(n not in known for n in names):
-                raise AnalysisError(f"self-connect predicate: unmodelled class in {norm(cond)}")
-            return any(known[n] for n in names)
-        return None
-
-    def decide_leaf(self, cond, st, depth):
-        if isinstance(cond, ast.Compare) and len(cond.ops) == 1 and isinstance(cond.ops[0], (ast.In, ast.NotIn)):
-            a = self.value(cond.left, st, depth)
-            b = self.value(cond.comparators[0], st, depth)
-            if is_const(a) and is_const(b) and isinstance(b[1], (tuple, str)):
-                r = a[1] in b[1]
-                return r if isinstance(cond.ops[0], ast.In) else not r
-        return StrictSpec.decide_leaf(self, cond, st, depth)
+            if host in LOOPBACK_DESTS:
+                if loopbackish(lh):
+                    return True
+                verdict = None  # loopback spelling while listening on one specific interface: over-refusal is allowed
+    return verdict
 
 
-def find_predicate(ctx, fn):
-    """The expression guarding the write of ``<data>.server.error`` plus the roles of the names it uses."""
-    params = [a.arg for a in fn.args.args]
-    ctx.require(len(params) == 2 and params[0] == "self", f"Proxyserver.server_connect: unexpected signature {params}")
-    data = params[1]
-    writes = [n for n in walk_in_order(fn) if isinstance(n, ast.Assign) and any(attr_chain(t) == f"{data}.server.error" for t in n.targets)]
-    ctx.require(len(writes) == 1, f"server_connect writes {data}.server.error {len(writes)} times (the rule models one hit site)")
-    w = writes[0]
-    guard = getattr(w, "_parent", None)
-    ctx.require(isinstance(guard, ast.If) and w in guard.body, "server_connect: the error write is not directly guarded by an if")
-    test = guard.test
-    if isinstance(test, ast.Name):
-        defs = [n for n in walk_in_order(fn) if isinstance(n, ast.Assign) and len(n.targets) == 1 and isinstance(n.targets[0], ast.Name) and n.targets[0].id == test.id]
-        ctx.require(len(defs) == 1, f"server_connect: `{test.id}` is assigned {len(defs)} times")
-        test = defs[0].value
-    # roles
-    unpack = [n for n in walk_in_order(fn) if isinstance(n, ast.Assign) and attr_chain(n.value) == f"{data}.server.address" and isinstance(n.targets[0], ast.Tuple)]
-    ctx.require(len(unpack) == 1 and len(unpack[0].targets[0].elts) >= 2, "server_connect no longer unpacks data.server.address into (host, port, ...)")
-    ch, cp = unpack[0].targets[0].elts[0], unpack[0].targets[0].elts[1]
-    ctx.require(isinstance(ch, ast.Name) and isinstance(cp, ast.Name), "server_connect: unmodelled unpacking of data.server.address")
-    loops = [n for n in walk_in_order(fn) if isinstance(n, ast.For)]
-    inner = [l for l in loops if attr_chain(l.iter).endswith(".listen_addrs")]
-    ctx.require(len(inner) == 1 and isinstance(inner[0].target, ast.Tuple) and len(inner[0].target.elts) >= 2, "server_connect no longer iterates `for host, port, *_ in <server>.listen_addrs`")
-    lh, lp = inner[0].target.elts[0], inner[0].target.elts[1]
-    ctx.require(isinstance(lh, ast.Name) and isinstance(lp, ast.Name), "server_connect: unmodelled listen_addrs unpacking")
-    srv = attr_chain(inner[0].iter)[: -len(".listen_addrs")]
-    outer = [l for l in loops if isinstance(l.target, ast.Name) and l.target.id == srv]
-    ctx.require(len(outer) == 1 and attr_chain(outer[0].iter) in ("self.servers",), "server_connect no longer iterates all of self.servers")
-    # is the guarded write inside both loops?
-    n, inside = w, set()
-    while n is not None and n is not fn:
-        if isinstance(n, ast.For):
-            inside.add(id(n))
-        n = getattr(n, "_parent", None)
-    ctx.require(id(inner[0]) in inside and id(outer[0]) in inside, "server_connect: the hit is not inside the loops over servers x listen addresses")
-    roles = {"connect_host": ch.id, "connect_port": cp.id, "listen_host": lh.id, "listen_port": lp.id,
-             "listen_transport": f"{srv}.mode.transport_protocol", "connect_transport": f"{data}.server.transport_protocol"}
-    return test, roles, w, data
+# ------------------------------------------------------------------------------------------------ R23.1
+TRANSPORTS = [("tcp", "tcp"), ("udp", "udp"), ("tcp", "udp"), ("udp", "tcp"), ("both", "tcp"), ("both", "udp")]
 
 
-def expected_hit(dest, listen, port_eq, tp_eq):
-    local = dest in LOCAL_DESTS or dest == listen
-    return bool(port_eq and tp_eq and local)
-
-
-def r23_1(ctx):
-    fn = ctx.func(PS, "Proxyserver.server_connect")
-    mod = ctx.model.module(PS)
-    test, roles, w, data = find_predicate(ctx, fn)
-    where = (PS, "Proxyserver.server_connect", test)
-    used = {attr_chain(n) for n in ast.walk(test) if isinstance(n, (ast.Name, ast.Attribute)) and attr_chain(n)}
-    for need in ("connect_host", "connect_port", "listen_port", "listen_transport", "connect_transport"):
-        ok = roles[need] in used or any(isinstance(c, ast.Call) and roles[need] in {attr_chain(a) for a in c.args} for c in ast.walk(test))
-        if not ok:
-            ctx.fail("R23.1", where, f"predicate does not mention {need}", "the self-connect test ignores a component that must agree (port / transport / host)")
+def r23_1(ctx, w: World):
     mism = {}
     probs = {}
-    n = 0
+    n0 = w.cells
     for listen in LISTEN_HOSTS:
         for dest in LOCAL_DESTS + REMOTE_DESTS + [listen]:
             for port_eq in (True, False):
-                for tp_eq in (True, False):
-                    atoms = {
-                        roles["connect_host"]: C(dest), roles["listen_host"]: C(listen),
-                        roles["connect_port"]: C(8080), roles["listen_port"]: C(8080 if port_eq else 9090),
-                        roles["connect_transport"]: C("tcp"), roles["listen_transport"]: C("tcp" if tp_eq else "udp"),
-                    }
-                    spec = HostSpec(mod, atoms)
-                    t = spec.truth(test, State(), 0)
-                    n += 1
-                    if spec.problems:
-                        for p in spec.problems:
-                            probs.setdefault((dest, p), (listen, port_eq, tp_eq))
+                agree = {}
+                for ltp, ctp in TRANSPORTS if port_eq else TRANSPORTS[:1] + TRANSPORTS[-1:]:
+                    listeners = [(ltp, [(listen, 8080 if port_eq else 9090)])]
+                    want = must_refuse(listeners, dest, 8080, ctp)
+                    if want is None:
                         continue
-                    if t is None:
-                        raise AnalysisError(f"self-connect predicate not decidable for destination {dest!r}: {norm(test)}")
-                    exp = expected_hit(dest, listen, port_eq, tp_eq)
-                    if t != exp and port_eq and tp_eq:
-                        mism.setdefault((dest if dest != listen or dest in LOCAL_DESTS else "<listen host>", t), listen)
-                    elif t != exp:
-                        mism.setdefault((f"port_equal={port_eq} transport_equal={tp_eq}", t), (dest, listen))
+                    got = w.refused(listeners, dest, 8080, ctp)
+                    agree[ltp, ctp] = got == want
+                    if got == want:
+                        continue
+                    if isinstance(got, str):
+                        probs.setdefault((dest, got), (listen, port_eq, ltp, ctp))
+                    elif port_eq and ltp in (ctp, "both") and not (ltp == "both" and agree.get((ctp, ctp))):
+                        mism.setdefault((dest if dest != listen or dest in LOCAL_DESTS else "<listen host>", got), listen)
+                    else:
+                        mism.setdefault((f"port_equal={port_eq} listener transport={ltp} connection transport={ctp}", got), (dest, listen))
+    n = w.cells - n0
     ctx.cells += n
-    for (what, got), ctxinfo in sorted(mism.items(), key=str):
+    for (what, got), info in sorted(mism.items(), key=str):
         if what.startswith("port_equal"):
-            ctx.fail("R23.1", where, f"hit={got} with {what}", f"port and transport must both agree for a self-connect (e.g. destination/listen {ctxinfo})")
+            ctx.fail("R23.1", w.where, f"hit={got} with {what}", f"port and transport must both agree for a self-connect, and a listener of transport 'both' serves tcp and udp (e.g. destination/listen {info})")
         else:
-            ctx.fail("R23.1", where, f"destination {what!r}: hit={got}", f"expected {not got} (listen host {ctxinfo!r}, same port and transport): "
+            ctx.fail("R23.1", w.where, f"destination {what!r}: hit={got}", f"expected {not got} (listen host {info!r}, same port and transport): "
                      + ("a destination denoting the own listener is not recognised, the proxy connects to itself" if not got else "an unrelated destination is refused as self-connect"))
-    for (dest, p), ctxinfo in sorted(probs.items()):
-        ctx.fail("R23.1", where, f"destination {dest!r}: {p}", "the hook raises instead of deciding: the guard is off for this destination")
+    for (dest, p), info in sorted(probs.items()):
+        ctx.fail("R23.1", w.where, f"destination {dest!r}: {p}", f"the hook raises instead of deciding: the guard is off for this destination (listen host / port equal / transports: {info})")
     if not mism and not probs:
-        ctx.ok("R23.1", f"self-connect predicate: {n} cells ({len(LOCAL_DESTS)} local + {len(REMOTE_DESTS)} remote spellings + listen host) x {len(LISTEN_HOSTS)} listen hosts x port x transport agree")
-    ctx.sample({"predicate": norm(test), "roles": roles})
-    return fn, w, data
+        ctx.ok("R23.1", f"self-connect decision: {n} cells ({len(LOCAL_DESTS)} local + {len(REMOTE_DESTS)} remote spellings + listen host) x {len(LISTEN_HOSTS)} listen hosts x port x transports agree")
+
+
+class Aliases:
+    """Resolves an expression of one function to a canonical attribute chain through local single-purpose temporaries
+    (``conn = command.connection``; ``err = conn.error``; ``(err := ...)``): a name stands for the value of its last assignment that
+    textually precedes the use, provided that assignment is a statement of a block enclosing the use (so it dominates the use) and the
+    name is not re-assigned in between."""
+
+    def __init__(self, fn):
+        self.fn = fn
+        self.params = {a.arg for a in fn.args.posonlyargs + fn.args.args + fn.args.kwonlyargs}
+        self.defs: dict = {}
+        for n in ast.walk(fn):
+            if isinstance(n, ast.Assign) and len(n.targets) == 1 and isinstance(n.targets[0], ast.Name):
+                self.defs.setdefault(n.targets[0].id, []).append((n, n.value))
+            elif isinstance(n, ast.AnnAssign) and isinstance(n.target, ast.Name) and n.value is not None:
+                self.defs.setdefault(n.target.id, []).append((n, n.value))
+            elif isinstance(n, ast.NamedExpr) and isinstance(n.target, ast.Name):
+                self.defs.setdefault(n.target.id, []).append((n, n.value))
+            elif isinstance(n, (ast.Assign, ast.AugAssign, ast.For, ast.AsyncFor, ast.With, ast.AsyncWith, ast.ExceptHandler)):
+                # any other way of binding a name: the name is not a plain temporary
+                tg = n.targets if isinstance(n, ast.Assign) else [n.target] if hasattr(n, "target") else [i.optional_vars for i in getattr(n, "items", []) if i.optional_vars is not None]
+                for t in tg:
+                    for x in ast.walk(t):
+                        if isinstance(x, ast.Name) and isinstance(x.ctx, ast.Store):
+                            self.defs.setdefault(x.id, []).append((n, None))
+                if isinstance(n, ast.ExceptHandler) and n.name:
+                    self.defs.setdefault(n.name, []).append((n, None))
+
+    @staticmethod
+    def pos(n):
+        return (n.lineno, n.col_offset)
+
+    @staticmethod
+    def enclosing_blocks(node):
+        """ids of the statements that enclose ``node`` (including its own statement)"""
+        out, n = set(), node
+        while n is not None and not isinstance(n, (ast.FunctionDef, ast.AsyncFunctionDef, ast.Lambda)):
+            if isinstance(n, ast.stmt):
+                out.add(id(getattr(n, "_parent", None)))
+            n = getattr(n, "_parent", None)
+        return out
+
+    def resolve(self, expr, at=None):
+        """-> (canonical chain | None, the expression node at which the value is actually read)"""
+        at = at if at is not None else expr
+        if isinstance(expr, ast.NamedExpr):
+            return self.resolve(expr.value, at)
+        if isinstance(expr, ast.Attribute):
+            base, _ = self.resolve(expr.value, at)
+            return (f"{base}.{expr.attr}" if base else None), expr
+        if isinstance(expr, ast.Name):
+            if expr.id not in self.defs:
+                return (expr.id if expr.id in self.params else None), expr
+            before = [(d, v) for d, v in self.defs[expr.id] if self.pos(d) < self.pos(at)]
+            if not before:
+                return (expr.id if expr.id in self.params else None), expr
+            d, v = max(before, key=lambda dv: self.pos(dv[0]))
+            if v is None:
+                return None, expr
+            stmt = d
+            while not isinstance(stmt, ast.stmt):
+                stmt = stmt._parent
+            if id(getattr(stmt, "_parent", None)) not in self.enclosing_blocks(at):
+                return None, expr  # assigned on some paths only
+            return self.resolve(v, d)
+        return None, expr
+
+    def chain(self, expr, at=None):
+        return self.resolve(expr, at)[0]
 
 
 class ConnSpec(GenericSpec):
@@ -327,54 +348,120 @@ class ConnSpec(GenericSpec):
 
     OPEN = ("open_connection", "open_udp_connection", "create_connection", "open_unix_connection")
 
-    def __init__(self):
+    ANCHORS = ("handle_hook", "server_event", "log")
+
+    def __init__(self, fn, error_chain, model=None, owner=None):
         def keep(ev):
             if ev[0] == "call":
                 last = ev[1].split(".")[-1]
                 return last in ("ServerConnectHook", "ServerConnectErrorHook", "OpenConnectionCompleted") or (last in self.OPEN and ev[1] != "self.open_connection")
             if ev[0] == "await":
                 return ev[1].split(".")[-1] in ("handle_hook", "server_event") + self.OPEN
-            return ev[0] == "return"
+            return ev[0] in ("return", "errread")
 
-        super().__init__(keep=keep, record_conds=True)
+        def resolver(call):
+            # private helper methods of the handler that carry part of the refusal / opening sequence are followed
+            f = call.func
+            if model is None or not (isinstance(f, ast.Attribute) and isinstance(f.value, ast.Name) and f.value.id == "self") or f.attr in self.ANCHORS or f.attr == fn.name:
+                return None
+            r = model.method(*owner, f.attr)
+            if r is None:
+                return None
+            names = {last_attr(c.func) for c in ast.walk(r[1]) if isinstance(c, ast.Call)}
+            if names & ({"ServerConnectHook", "ServerConnectErrorHook", "OpenConnectionCompleted"} | set(self.OPEN)):
+                return r[1]
+            return None
+
+        super().__init__(keep=keep, resolver=resolver, record_conds=True)
+        self.fn = fn
+        self.al = Aliases(fn)
+        self.error_chain = error_chain
+
+    def is_err(self, e, at):
+        return self.al.chain(e, at) == self.error_chain
+
+    def owned(self, node):
+        while node is not None and not isinstance(node, (ast.FunctionDef, ast.AsyncFunctionDef)):
+            node = getattr(node, "_parent", None)
+        return node is self.fn
+
+    def events(self, node, st):
+        """... plus ('errread', line, col) wherever <command>.connection.error is read: the test must be on a value read after the hook"""
+        out = list(super().events(node, st))
+        leaf = self.error_chain.rsplit(".", 1)[1]
+        for n in ast.walk(node):
+            if isinstance(n, ast.Attribute) and n.attr == leaf and isinstance(n.ctx, ast.Load) and self.owned(n) and self.is_err(n, n):
+                out.append(("errread", n.lineno, n.col_offset))
+        return out
 
     def cond_event(self, expr, value, st):
-        e = expr.value if isinstance(expr, ast.NamedExpr) else expr
-        if attr_chain(e) == "command.connection.error":
-            return ("err", value)
-        if "connection.error" in ast.unparse(expr):
-            raise AnalysisError(f"open_connection: unmodelled test of the connection error: {norm(expr)}")
+        """A branch on the truth of the connection error, in any of the spellings  e | (x := e) | bool(e) | e is [not] None | e !=/== None
+        where e reads <command>.connection.error directly or through local temporaries."""
+        if not self.owned(expr):
+            return None  # a condition inside a followed helper
+        e, pos = expr, True
+        if isinstance(e, ast.Compare) and len(e.ops) == 1 and isinstance(e.comparators[0], ast.Constant) and e.comparators[0].value is None and isinstance(e.ops[0], (ast.Is, ast.IsNot, ast.Eq, ast.NotEq)):
+            pos = isinstance(e.ops[0], (ast.IsNot, ast.NotEq))  # R23.2(a): the addon writes a non-empty str, so "is not None" and truthiness agree on a refusal
+            e = e.left
+        elif isinstance(e, ast.Call) and isinstance(e.func, ast.Name) and e.func.id == "bool" and len(e.args) == 1 and not e.keywords:
+            e = e.args[0]
+        if self.is_err(e, expr):
+            origin = self.al.resolve(e, expr)[1]
+            return ("err", value if pos else not value, origin.lineno, origin.col_offset)
+        for n in ast.walk(expr):
+            if isinstance(n, (ast.Name, ast.Attribute)) and self.is_err(n, expr):
+                raise AnalysisError(f"open_connection: unmodelled test of the connection error: {norm(expr)}")
         return None
 
 
-def r23_2(ctx, fn, w, data):
-    # (a) the hit: a non-empty message, and early exits of the loops only through the hit
-    where = (PS, "Proxyserver.server_connect", w)
-    v = w.value
-    nonempty = (isinstance(v, ast.Constant) and isinstance(v.value, str) and v.value != "") or (
-        isinstance(v, ast.JoinedStr) and any(isinstance(p, ast.Constant) and p.value for p in v.values))
-    ctx.check(nonempty, "R23.2", where, f"{data}.server.error = <non-empty message>", "the value written on a hit is not a non-empty string: open_connection would not refuse",
-              desc="hit writes a non-empty error message")
-    for n in walk_in_order(fn):
-        if isinstance(n, (ast.Break, ast.Continue)):
-            raise AnalysisError("server_connect: break/continue in the listener loops is not modelled")
-    traces, _ = traces_of(fn, GenericSpec(keep=lambda ev: ev[0] == "return" or (ev[0] == "assign" and ev[1].endswith(".server.error")), record_conds=False, unroll=2))
-    ctx.paths += len(traces)
-    bad = [tr for tr, how, _ in traces if ("return",) in tr and not any(e[0] == "assign" for e in tr[: tr.index(("return",))])]
-    ctx.check(not bad, "R23.2", (PS, "Proxyserver.server_connect", fn), "loops over servers x listen addresses are left early only after a hit",
-              "a return before the hit skips the remaining listeners", desc=f"server_connect: {len(traces)} paths, early return only after the error write")
+# ------------------------------------------------------------------------------------------------ R23.2
+def r23_2a(ctx, w: World):
+    """(a) every listener position is examined and a hit leaves a non-empty message behind."""
+    layouts = {
+        "same host, distinct ports": [("tcp", [("127.0.0.1", 8000 + 10 * i + k) for k in range(2)]) for i in range(3)],
+        "same port, distinct hosts": [("tcp", [(f"192.0.2.{1 + 2 * i + k}", 8080) for k in range(2)]) for i in range(3)],
+        "ipv6 after ipv4": [("udp", [("198.51.100.1", 5353), ("2001:db8::5", 5353)]), ("udp", [("203.0.113.9", 5353), ("2001:db8::9", 5353)])],
+    }
+    n0 = w.cells
+    unreached, badmsg, raised = [], [], []
+    for lname, listeners in layouts.items():
+        for i, (mtp, addrs) in enumerate(listeners):
+            for k, (lh, lp) in enumerate(addrs):
+                how, err, written = w.connect(listeners, lh, lp, mtp)
+                cell = f"{lname}: listener #{i} address #{k} ({lh}:{lp})"
+                if how != "ok":
+                    raised.append(f"{cell}: {how}")
+                elif isinstance(err, str) and err:
+                    continue
+                elif any(v is not None for v in written):
+                    badmsg.append(f"{cell}: error ends as {err!r} after writes {written!r}")
+                else:
+                    unreached.append(cell)
+    ctx.cells += w.cells - n0
+    ctx.check(not badmsg and not raised, "R23.2", w.where, MESSAGE_OK,
+              "the value left in data.server.error on a hit is not a non-empty string (or the hook raises): open_connection would not refuse; " + "; ".join((badmsg + raised)[:4]),
+              desc="a hit leaves a non-empty error message behind (every listener position)")
+    ctx.check(not unreached, "R23.2", w.where, LOOPS_OK,
+              "a destination equal to a listen address is not refused: the scan over listeners x listen addresses stops early or skips entries; " + "; ".join(unreached[:4]),
+              desc=f"{w.qual}: {w.cells - n0} listener positions (server i, address k) each lead to the refusal")
+
+
+def r23_2b(ctx):
     # (b) open_connection refuses before opening
     oc = ctx.func(SERVER, "ConnectionHandler.open_connection")
     wh = (SERVER, "ConnectionHandler.open_connection", oc)
     hd = [c for c in walk_in_order(oc) if isinstance(c, ast.Call) and last_attr(c.func) == "ServerConnectionHookData"]
     ctx.require(len(hd) == 1, "open_connection no longer builds one ServerConnectionHookData")
-    kw = {k.arg: attr_chain(k.value) for k in hd[0].keywords}
-    if not kw and len(hd[0].args) == 2:
+    params = [a.arg for a in oc.args.args]
+    ctx.require(len(params) == 2 and params[0] == "self", f"open_connection: unexpected signature {params}")
+    conn_chain = f"{params[1]}.connection"
+    spec = ConnSpec(oc, f"{conn_chain}.error", ctx.model, (SERVER, "ConnectionHandler"))
+    kw = {k.arg: spec.al.chain(k.value) for k in hd[0].keywords}
+    if len(hd[0].args) <= 2 and all(k.arg for k in hd[0].keywords):
         fields = [s.target.id for s in ctx.model.cls(HOOKF, "ServerConnectionHookData").body if isinstance(s, ast.AnnAssign)]
-        kw = dict(zip(fields, [attr_chain(a) for a in hd[0].args]))
-    ctx.check(kw.get("server") == "command.connection", "R23.2", wh, "ServerConnectionHookData(server=command.connection)",
+        kw.update(zip(fields, [spec.al.chain(a) for a in hd[0].args]))
+    ctx.check(kw.get("server") == conn_chain, "R23.2", wh, "ServerConnectionHookData(server=command.connection)",
               "the hook does not see the connection that is about to be opened", desc="hook data server = command.connection")
-    spec = ConnSpec()
     traces, _ = traces_of(oc, spec)
     ctx.paths += len(traces)
     is_open = lambda e: e[0] in ("call", "await") and e[1].split(".")[-1] in spec.OPEN  # noqa: E731
@@ -391,7 +478,8 @@ def r23_2(ctx, fn, w, data):
         if opens and (ie < 0 or min(opens) < ie):
             badm.setdefault("a socket is opened without a preceding test of connection.error", tr)
             continue
-        if ie >= 0 and not (0 <= ih < ia < ie):
+        ir = max((i for i, e in enumerate(tr[: max(ie, 0)]) if e[0] == "errread" and e[1:] == tr[ie][2:]), default=-1) if ie >= 0 else -1
+        if ie >= 0 and not (0 <= ih < ia < ir < ie):
             badm.setdefault("connection.error is tested before the server_connect hook has been awaited", tr)
             continue
         if ie >= 0 and tr[ie][1]:
@@ -404,35 +492,22 @@ def r23_2(ctx, fn, w, data):
                 badm.setdefault("refused connection is not completed with OpenConnectionCompleted(err)", tr)
     for msg, tr in sorted(badm.items()):
         ctx.fail("R23.2", wh, msg, "a self-connect refused by the addon is opened anyway / not reported to the layer", trace=[list(e) for e in tr])
-    ctx.require(n_ref >= 1 and n_go >= 1 or badm, "open_connection: no path tests command.connection.error (anchor changed shape)")
+    ctx.require(n_ref >= 1 and n_go >= 1 or badm, f"open_connection: no path tests {conn_chain}.error (anchor changed shape)")
     if not badm:
         ctx.ok("R23.2", f"open_connection: {len(traces)} paths; hook awaited < error test < socket open; refusal => ServerConnectErrorHook + OpenConnectionCompleted, no socket")
-    # (c) registration
+
+
+def r23_2c(ctx):
+    # (c) registration (that the addon implements the method the hook dispatches to is required by World)
     order = default_addon_order(ctx)
-    ctx.check("Proxyserver" in order, "R23.2", ("mitmproxy/addons/__init__.py", "default_addons", 0), "proxyserver.Proxyserver() in default_addons",
+    ctx.check(ADDON in order, "R23.2", ("mitmproxy/addons/__init__.py", "default_addons", 0), "proxyserver.Proxyserver() in default_addons",
               "the addon carrying the self-connect guard is not loaded", desc="Proxyserver() in default_addons")
-    meth = hook_method(ctx, HOOKF, "ServerConnectHook")
-    ctx.require(meth == "server_connect", f"ServerConnectHook now dispatches to {meth}, not server_connect")
 
 
-def r23_3(ctx):
-    """Self-connect decision extracted by interpreting Proxyserver.server_connect's AST (pyint, ``ipaddress`` trusted) over
-    representative listener configurations x destination spellings x transports; reference computed by the checker."""
-    import ipaddress
-
-    from ..pyint import Interp
-    from ..pyint import Raised
-    from ..pyint import Rec
-
-    fn = ctx.func(PS, "Proxyserver.server_connect")
-    where = (PS, "Proxyserver.server_connect", fn)
-
-    class _Log:
-        def __getattr__(self, name):
-            return lambda *a, **k: None
-
+# ------------------------------------------------------------------------------------------------ R23.3
+def r23_3(ctx, w: World):
+    """The decision over representative multi-listener configurations x destination spellings x ports x transports."""
     LOOP = ["localhost", "LOCALHOST", "localhost.", "127.0.0.1", "127.0.0.2", "127.255.255.254", "::1", "0:0:0:0:0:0:0:1", "::ffff:127.0.0.1"]
-    WILD = ["0.0.0.0", "::"]
     REMOTE = ["example.com", "93.184.216.34", "2606:2800:220:1::1", "localhost.example.com", "10.0.0.9"]
     # listener configurations: list of (mode transport, [(listen_host, listen_port)])
     CONFIGS = {
@@ -444,76 +519,48 @@ def r23_3(ctx):
         "both@127.0.0.1:5353": [("both", [("127.0.0.1", 5353)])],
         "tcp@127.0.0.1:8080 and tcp@127.0.0.1:8081": [("tcp", [("127.0.0.1", 8080)]), ("tcp", [("127.0.0.1", 8081)])],
         "tcp@127.0.0.1:[9000,8080]": [("tcp", [("127.0.0.1", 9000), ("127.0.0.1", 8080)])],
+        "no listeners": [],
     }
-
-    def is_loopbackish(h):
-        return h in ("127.0.0.1", "::1", "::", "0.0.0.0", "") or h.startswith("127.")
-
-    def reference(cfg, host, port, tp):
-        """True = must refuse, False = must not refuse, None = not decided by the property."""
-        verdict = False
-        for mtp, addrs in cfg:
-            if not (mtp == tp or mtp == "both"):
-                continue
-            for lh, lp in addrs:
-                if lp != port:
-                    continue
-                if host == lh or host in WILD:
-                    return True
-                if host in LOOP:
-                    if is_loopbackish(lh):
-                        return True
-                    verdict = None  # loopback spelling while listening on one specific interface: over-refusal is allowed
-        if host in REMOTE:
-            return False
-        return verdict
-
-    n = 0
+    n0 = w.cells
     bad = {}
     for cname, cfg in CONFIGS.items():
         ports = sorted({lp for _, addrs in cfg for _, lp in addrs} | {4444})
-        hosts = LOOP + WILD + REMOTE + sorted({lh for _, addrs in cfg for lh, _ in addrs})
+        hosts = LOOP + WILDCARD_DESTS + REMOTE + sorted({lh for _, addrs in cfg for lh, _ in addrs})
         for host in hosts:
             for port in ports:
                 for tp in ("tcp", "udp"):
-                    want = reference(cfg, host, port, tp)
+                    want = must_refuse(cfg, host, port, tp)
                     if want is None:
                         continue
-                    it = Interp(ctx.model, trusted_modules={"ipaddress": ipaddress, "logging": _Log()})
-                    it.overrides[(PS, "logger")] = _Log()
-                    servers = [Rec("ServerInstance", mode=Rec("ProxyMode", transport_protocol=mtp, full_spec=cname), listen_addrs=[tuple(a) for a in addrs]) for mtp, addrs in cfg]
-                    srv = Rec("Server", _name="data.server", address=(host, port), transport_protocol=tp, sockname=None, error=None, via=None, sni=None, tls=False)
-                    data = Rec("ServerConnectionHookData", server=srv, client=Rec("Client", peername=("192.0.2.7", 50000), sockname=("127.0.0.1", 8080)))
-                    self_rec = Rec("Proxyserver", _impl=(PS, "Proxyserver"), servers=servers, _connect_addr=None, is_running=True)
-                    try:
-                        it.method(self_rec, "server_connect", data)
-                        got = bool(srv.error)
-                    except Raised as r:
-                        got = f"raises {r.name}"
-                    n += 1
+                    got = w.refused(cfg, host, port, tp)
                     if got != want:
                         bad.setdefault((cname, tp, got, want), []).append(f"{host}:{port}")
+    n = w.cells - n0
     ctx.cells += n
     for (cname, tp, got, want), dests in sorted(bad.items(), key=str):
-        ctx.fail("R23.3", where, f"listeners [{cname}], {tp} connection to {dests[0]}: refused={got}, expected {want}",
+        ctx.fail("R23.3", w.where, f"listeners [{cname}], {tp} connection to {dests[0]}: refused={got}, expected {want}",
                  f"a destination denoting mitmproxy's own listener is not refused (or an ordinary destination is); {len(dests)} destinations differ: {dests[:6]}")
     if not bad:
         ctx.ok("R23.3", f"{n} cells = {len(CONFIGS)} listener configurations x destination spellings x ports x transports agree with the reference")
-    ctx.bounds.append("R23.3: representative listener configurations and destination spellings, not all of them")
+    ctx.bounds.append("R23.1/R23.3: representative listener configurations and destination spellings, not all of them")
 
 
 def check(ctx):
-    ctx.rule("R23.3", "server_connect, interpreted from its AST, refuses exactly the destinations that denote an own listener of a matching transport (all listeners and listen addresses considered)")
-    ctx.guard(r23_3, ctx)
-    ctx.rule("R23.1", "self-connect predicate == port equal and transport equal and (loopback / unspecified / localhost spelling or listen host), for all representative spellings")
-    ctx.rule("R23.2", "hit sets a non-empty error on all paths; open_connection refuses (error hook + completion) before opening a socket")
+    ctx.rule("R23.3", "the ServerConnectHook method of Proxyserver, interpreted from its AST, refuses exactly the destinations that denote an own listener of a matching transport (all listeners and listen addresses considered)")
+    ctx.rule("R23.1", "self-connect decision == port equal and transport equal/both and (loopback / unspecified / localhost spelling or listen host), for all representative spellings")
+    ctx.rule("R23.2", "hit leaves a non-empty error whichever listener position matches; open_connection refuses (error hook + completion) before opening a socket")
     ctx.trust("str methods and ipaddress (is_loopback, is_unspecified, ipv4_mapped) as implemented by the checker's Python")
-    r = ctx.guard(r23_1, ctx)
-    if r is not None:
-        fn, w, data = r
-        ctx.expect_instances("R23.1", 1)
-        ctx.guard(r23_2, ctx, fn, w, data)
-        ctx.expect_instances("R23.2", 5)
+    w = ctx.guard(World, ctx)
+    if w is not None:
+        ctx.guard(r23_3, ctx, w)
+        ctx.guard(r23_1, ctx, w)
+        ctx.guard(r23_2a, ctx, w)
+        w.report()
+    ctx.expect_instances("R23.1", 1)
+    ctx.guard(r23_2b, ctx)
+    ctx.guard(r23_2c, ctx)
+    ctx.expect_instances("R23.2", 5)
+    ctx.expect_instances("R23.3", 1)
 
 
 _FIXED = "and (_is_local_host(connect_host) or connect_host == listen_host)"
@@ -532,12 +579,19 @@ MUTANTS = [
     Mutant("wildcard-not-recognised", PS, "    return ip.is_loopback or ip.is_unspecified\n", "    return ip.is_loopback\n", "R23.1"),
     Mutant("listen-host-dropped", PS, _FIXED, "and _is_local_host(connect_host)", "R23.1"),
     Mutant("port-test-dropped", PS, "                    connect_port == listen_port\n                    and (_is_local", "                    (_is_local", "R23.1"),
-    Mutant("transport-test-dropped", PS, "\n                    and server.mode.transport_protocol\n                    in (data.server.transport_protocol, \"both\")\n", "\n", "R23"),
+    Mutant("transport-test-dropped", PS, "\n                    and server.mode.transport_protocol\n                    in (data.server.transport_protocol, \"both\")\n", "\n", "R23.1"),
+    Mutant("transport-both-not-recognised-table", PS, """                    and server.mode.transport_protocol
+                    in (data.server.transport_protocol, "both")
+""", """                    and server.mode.transport_protocol == data.server.transport_protocol
+""", "R23.1"),
     Mutant("hostname-crashes-guard", PS, "    try:\n        ip = ipaddress.ip_address(host)\n    except ValueError:\n        return False\n", "    ip = ipaddress.ip_address(host)\n", "R23.1"),
     Mutant("hit-writes-empty-error", PS, "                    data.server.error = (\n                        \"Request destination unknown. \"\n                        \"Unable to figure out where this request should be forwarded to.\"\n                    )\n",
            "                    data.server.error = \"\"\n", "R23.2"),
     Mutant("return-after-first-listener", PS, "                    return\n", "                    return\n                return\n", "R23.2"),
+    Mutant("hit-undone-by-later-listener", PS, "                    return\n", "                else:\n                    data.server.error = None\n", "R23.2"),
     Mutant("error-ignored-by-open-connection", SERVER, "        if err := command.connection.error:\n", "        if (err := command.connection.error) and False:\n", "R23.2"),
+    Mutant("error-read-before-hook", SERVER, "        await self.handle_hook(server_hooks.ServerConnectHook(hook_data))\n        if err := command.connection.error:\n",
+           "        stale = command.connection.error\n        await self.handle_hook(server_hooks.ServerConnectHook(hook_data))\n        if err := stale:\n", "R23.2"),
     Mutant("refusal-falls-through-to-open", SERVER, "                events.OpenConnectionCompleted(command, f\"Connection killed: {err}\")\n            )\n            return\n",
            "                events.OpenConnectionCompleted(command, f\"Connection killed: {err}\")\n            )\n", "R23.2"),
     Mutant("hook-sees-other-connection", SERVER, "client=self.client, server=command.connection\n", "client=self.client, server=self.layer.context.server\n", "R23.2"),
